@@ -654,6 +654,20 @@ pub fn eval_disc(c: &DiscCase) -> CaseOut {
                 }
                 if !matches!(e, Res::BufferTooSmall) {
                     flag(&mut viol, "unexpected-error", &format!("disconnect-{:?}", e), format!("{:?} for {:?}", e, c));
+                } else {
+                    // "too little buffer" is an answer only when the configured transmit buffer really is too
+                    // small for the packet asked for (5 bytes of fixed-header reserve included)
+                    let mut body = vec![want_reason];
+                    mr::put_props(&mut body, &props_ref);
+                    let need = 5 + body.len();
+                    if need <= 64 {
+                        flag(
+                            &mut viol,
+                            "request-refused-although-it-fits",
+                            "disconnect",
+                            format!("disconnect with {:?} needs at most {} bytes, the transmit buffer has 64, yet it fails with BufferTooSmall", props_ref, need),
+                        );
+                    }
                 }
             }
         }
